@@ -1032,6 +1032,12 @@ static void gen_expr(Node *node) {
 
     int sz = node->lhs->ty->base->size;
     println("  xchg %s, (%%rdi)", reg_ax(sz));
+
+    // The old value is narrower than a register; extend it.
+    if (sz == 1)
+      println("  %s %%al, %%eax", node->ty->is_unsigned || node->ty->kind == TY_BOOL ? "movzbl" : "movsbl");
+    else if (sz == 2)
+      println("  %s %%ax, %%eax", node->ty->is_unsigned ? "movzwl" : "movswl");
     return;
   }
   }
